@@ -301,6 +301,9 @@ func (ln *LeafNode) Decode(buf []byte) error {
 	ln.Prefix = buf[:idx]
 	buf = buf[idx+1:]
 	idx = bytes.IndexByte(buf, Separator)
+	if idx < 0 {
+		return ErrInvalidEncoding
+	}
 	ln.Path = buf[:idx]
 	buf = buf[idx+1:]
 	if len(buf) == 0 {
